@@ -265,13 +265,13 @@ func (eng *Engine) VerifyFunc(key string) (res *FuncResult) {
 		}
 	}()
 	// pass 1: which families does each loop write?
-	c1 := eng.newCtx(fs.Key, fs.Tags, fn.Pkg.Pkg)
+	c1 := eng.newCtx(fs.Key, fs.Tags, pkgOf(fn))
 	c1.pass1 = true
 	c1.spec = fs
 	c1.fn = fn
 	eng.runTop(c1, fn, fs)
 	// pass 2
-	c := eng.newCtx(fs.Key, fs.Tags, fn.Pkg.Pkg)
+	c := eng.newCtx(fs.Key, fs.Tags, pkgOf(fn))
 	c.spec = fs
 	c.fn = fn
 	c.loopW = c1.loopW
